@@ -87,7 +87,7 @@ def run(tier, seed):
     rng = random.Random(seed * 353868019 + 18)
     mcs = [core.mc("MC_PortSem"), core.mc("MC_AceText")]
     jobs, t = [], 1
-    for _ in range(5000 if tier == "quick" else 150000):
+    for _ in range(5000 if tier == "quick" else 80000):
         plat = rng.choice(["ios", "ios", "nxos"])
         proto = rng.choice(["tcp", "udp"])
         ops = rng.choice([("", ""), ("", ""), ("eq", ""), ("", "eq"), ("eq", "eq"), ("gt", ""), ("", "lt"), ("range", ""), ("", "range")])
@@ -99,7 +99,7 @@ def run(tier, seed):
         if side in ("dst", "both"):
             job["dstports"] = rand_request(rng)
         jobs.append(job); t += 1
-    for _ in range(1200 if tier == "quick" else 30000):
+    for _ in range(1200 if tier == "quick" else 15000):
         plat = rng.choice(["ios", "nxos"])
         proto = rng.choice(["ip", "tcp", "udp", "icmp", "47"])
         ops = rng.choice([("", ""), ("eq", "eq"), ("", "eq")]) if proto in ("tcp", "udp") else ("", "")
